@@ -98,10 +98,11 @@ class Side:
 
 class Node:
     """State of the replay after a prefix of a behaviour."""
-    __slots__ = ("sides", "fails", "events")
+    __slots__ = ("sides", "fails", "events", "entry_taint")
 
     def __init__(self, sides):
         self.sides = sides
+        self.entry_taint = {bk: s.tainted for bk, s in sides.items()}   # taint inherited from EARLIER steps
         self.fails = []    # failures observed AT this step
         self.events = []   # non-failure events at this step (subquery, skipped, ...)
 
@@ -162,7 +163,7 @@ class Replayer:
                    beh=dict(src=beh["src"], srcnames=beh["srcnames"], init=beh["init"], steps=beh["steps"][: k + 1]))
         rec.update(extra)
         sides = [node.sides[b] for b in node.sides] if backend == "both" else [node.sides[backend]]
-        rec["tainted"] = any(sd.tainted for sd in sides)
+        rec["tainted"] = any(node.entry_taint.get(sd.backend, False) for sd in sides)
         if clause in ("rows", "order", "names", "export-error", "accept", "cross-rows", "cross-order", "cross-names"):
             for sd in sides:
                 sd.tainted = True
